@@ -58,6 +58,7 @@ fn main() {
             eprintln!("harness bug (panic outside a case): {info}");
         }
     }));
+    util::start_watchdog(&args.out, &args.engine);
     match args.engine.as_str() {
         "route" => route::run(&args),
         "num" => num::run(&args),
